@@ -1,6 +1,7 @@
 /-
   Decidable oracles about one call of a blue-green control plane (old world → new world),
-  shared by the theorems (`RV.Props.CtlBlueGreen`) and the driver (C01 / C05 / C06 / C09 / C11 keys `bg_*`).
+  shared by the theorems (`RV.Props.CtlBlueGreen`) and the driver (keys `C01.bg_*`, `C05.bg_*`,
+  `C06.bg_*`, `C09.bg_*`, `C11.bg_*`).
 -/
 import RV.Model.CtlBlueGreen
 namespace RV.Oracle.CtlBlueGreen
@@ -16,7 +17,7 @@ structure Orig where
     (absent fields appear with the API defaults the code assumes) -/
 def effSetting (kind : Kind) (wl : Workload) : Setting := initSetting kind emptySetting wl
 
-/-- a saved setting as `Initialize` writes it: every field it restores is present -/
+/-- a saved setting as `Initialize` writes it: every field `Finalize` restores is present -/
 def complete (kind : Kind) (s : Setting) : Bool :=
   s.maxSurge.isSome && s.maxUnavailable.isSome &&
   (match kind with
@@ -25,20 +26,21 @@ def complete (kind : Kind) (s : Setting) : Bool :=
 
 /-! ### known-finding guards (input regions) -/
 
-/-- F5 `origRecreate`: a Deployment whose strategy type was not `RollingUpdate` — `Initialize` overwrites the type and nothing saves it -/
+/-- `origRecreate`: a Deployment whose strategy type was not `RollingUpdate` — `Initialize` overwrites the
+    type and nothing saves it -/
 def gOrigType (kind : Kind) (o : Orig) : Bool := kind = .deployment && o.stype ≠ .expected
 
-/-- F2 `savedMinReadyZero`: `Initialize` by a BatchRelease that does not control the workload yet finds a saved
+/-- `savedMinReadyZero`: `Initialize` by a BatchRelease that does not control the workload yet finds a saved
     setting with `minReadySeconds = 0` (the value `0` doubles as "unset") on a workload whose field is not `0` -/
 def gSavedZero (br : BR) (wl : Workload) : Bool :=
   match wl.saved with
   | .some s => decide (s.minReadySeconds = 0) && decide (wl.minReadySeconds ≠ 0) && !controlled br wl
   | _ => false
 
-/-- F4 `hpaListFault`: a List of HPAs fails in this call (`findHPA` logs it and reports "no HPA") -/
+/-- `hpaListFault`: a List of HPAs fails in this call (`findHPA` logs it and reports "no HPA") -/
 def gListFault (f : Fault) : Bool := f.listV2 || f.listV1
 
-/-- F3 `hpaNoApiVersion`: some HPA of the namespace has a `scaleTargetRef` without `apiVersion` -/
+/-- `hpaNoApiVersion`: some HPA of the namespace has a `scaleTargetRef` without `apiVersion` -/
 def gNoApiVersion (w : World) : Bool :=
   w.hpaV2.any (fun h => h.av = .absent) || w.hpaV1.any (fun h => h.av = .absent)
 
@@ -51,61 +53,89 @@ def waitFailsAfterPatch (wl : Workload) : Bool :=
     | .val false => true
     | _ => false
 
-/-- F1 `deployFinalizeRetry`: Deployment `Finalize` on an object that is already restored (no saved annotation:
-    a second attempt, or a workload that was never initialised) evaluates its wait on an empty object -/
-def gFinalizeRetry (kind : Kind) (op : Op) (w : World) (br : BR) : Bool :=
-  kind = .deployment && op = .fin && !br.partitioned &&
-  (match w.wl with
-   | none => false
-   | some wl => restored wl || waitFailsAfterPatch wl)
+/-- `deployFinalizeRetry`: Deployment `Finalize` on an object that is already restored (no saved annotation: a
+    second attempt, or a workload that was never initialised) skips the patch and evaluates its wait on an
+    empty object -/
+def gRestoredDeploy (kind : Kind) (wl : Workload) : Bool := kind = .deployment && restored wl
+
+/-- `csPartitionKept`: CloneSet `Finalize` never touches `updateStrategy.partition` -/
+def gCsPartition (kind : Kind) (wl : Workload) : Bool := kind = .cloneSet && wl.partition.isSome
 
 /-! ### C05: the saved original and its restoration -/
 
-/-- invariant of a release with original settings `o`: the saved annotation, when present, is `o`; when absent the
-    workload itself still has `o` and carries no control-info -/
+/-- invariant of a release with original settings `o`, on the workload: the saved annotation, when present, is
+    `o`; when absent the workload itself still has `o` and carries no control-info -/
+def invWl (kind : Kind) (o : Orig) (wl : Workload) : Bool :=
+  (match wl.saved with
+   | .none => decide (effSetting kind wl = o.setting) && decide (wl.ctl = .none)
+   | .some s => decide (s = o.setting)
+   | .bad => false) &&
+  (gOrigType kind o || decide (wl.stype = o.stype))
+
 def inv (kind : Kind) (o : Orig) (w : World) : Bool :=
   complete kind o.setting &&
   (match w.wl with
    | none => true
-   | some wl =>
-     (match wl.saved with
-      | .none => effSetting kind wl == o.setting && wl.ctl == .none
-      | .some s => s == o.setting
-      | .bad => false) &&
-     (gOrigType kind o || wl.stype == o.stype))
+   | some wl => invWl kind o wl)
 
 /-- the HPA `findHPAForWorkload` associates with the workload targets it again -/
 def hpaRestored (w : World) : Bool :=
   match findHPA w noFault with
-  | .val (some (_, k)) => k == 0
+  | .val (some (_, k)) => decide (k = 0)
   | _ => true
 
-/-- the end state C05 asks for -/
-def restoredOK (kind : Kind) (o : Orig) (w : World) : Bool :=
+/-- a `Finalize` that is meant to release the workload reported success -/
+def finalizeDone (w : World) (br : BR) (out : CallOut) : Bool :=
+  decide (out.res = .ok) && !br.partitioned &&
   (match w.wl with
-   | none => true
-   | some wl =>
-     wl.saved == .none && wl.ctl == .none && effSetting kind wl == o.setting && wl.stype == o.stype &&
-     (kind != .deployment || (!wl.paused && !wl.stableLabel))) &&
-  hpaRestored w
+   | some wl => !wl.deleting
+   | none => false)
 
-/-- **C05** `finalize_restores_original`, one step: a `Finalize` that reports success (batchPartition cleared)
-    from a world satisfying the invariant leaves the workload with the original settings, no saved / control
-    annotation, and the HPA re-enabled. -/
+/-- **C05** `finalize_restores_original`, one step: a successful `Finalize` (batchPartition cleared) from a world
+    satisfying the invariant leaves the workload with exactly the original minReadySeconds, maxSurge,
+    maxUnavailable and progressDeadlineSeconds and without saved / control annotation. -/
 def finalizeRestores (kind : Kind) (o : Orig) (w : World) (br : BR) (out : CallOut) : Bool :=
-  if inv kind o w ∧ ¬ br.partitioned ∧ out.res = .ok then restoredOK kind o out.world else true
+  if inv kind o w ∧ finalizeDone w br out then
+    match out.world.wl with
+    | some wl' => decide (wl'.saved = .none ∧ wl'.ctl = .none ∧ effSetting kind wl' = o.setting)
+    | none => false
+  else true
+
+/-- **C05** … and with the original strategy type. -/
+def finalizeRestoresType (kind : Kind) (o : Orig) (w : World) (br : BR) (out : CallOut) : Bool :=
+  if inv kind o w ∧ finalizeDone w br out then
+    match out.world.wl with
+    | some wl' => decide (wl'.stype = o.stype)
+    | none => false
+  else true
+
+/-- **C05** … and the HPA targets the workload again. -/
+def finalizeRestoresHPA (w : World) (br : BR) (out : CallOut) : Bool :=
+  if finalizeDone w br out then hpaRestored out.world else true
+
+/-- **C05** … and the workload is handed back to its own controller: Deployment un-paused and without the
+    stable-revision label, CloneSet without partition. -/
+def finalizeReleases (kind : Kind) (w : World) (br : BR) (out : CallOut) : Bool :=
+  if finalizeDone w br out then
+    match out.world.wl with
+    | some wl' =>
+      (match kind with
+       | .deployment => !wl'.paused && !wl'.stableLabel
+       | .cloneSet => wl'.partition.isNone)
+    | none => false
+  else true
 
 /-- **C05** inductive step: every call, whatever its faults, preserves the invariant. -/
 def invPreserved (kind : Kind) (o : Orig) (w : World) (out : CallOut) : Bool :=
   if inv kind o w then inv kind o out.world else true
 
 /-- **C05** round trip, first half: `Initialize` of a workload without saved annotation records exactly the
-    workload's effective settings. -/
+    workload's effective settings and takes control. -/
 def initSavesOriginal (kind : Kind) (w : World) (br : BR) (out : CallOut) : Bool :=
   match w.wl, out.world.wl with
   | some wl, some wl' =>
     if wl.saved = .none ∧ ¬ controlled br wl ∧ out.res = .ok then
-      wl'.saved == .some (effSetting kind wl) && controlled br wl'
+      decide (wl'.saved = .some (effSetting kind wl)) && controlled br wl'
     else true
   | _, _ => true
 
@@ -119,10 +149,10 @@ def initKeepsSaved (w : World) (out : CallOut) : Bool :=
     | .some s =>
       (match wl'.saved with
        | .some s' =>
-         (s.maxSurge.isNone || s'.maxSurge == s.maxSurge) &&
-         (s.maxUnavailable.isNone || s'.maxUnavailable == s.maxUnavailable) &&
-         (s.progressDeadlineSeconds.isNone || s'.progressDeadlineSeconds == s.progressDeadlineSeconds) &&
-         s'.minReadySeconds == s.minReadySeconds
+         (s.maxSurge.isNone || decide (s'.maxSurge = s.maxSurge)) &&
+         (s.maxUnavailable.isNone || decide (s'.maxUnavailable = s.maxUnavailable)) &&
+         (s.progressDeadlineSeconds.isNone || decide (s'.progressDeadlineSeconds = s.progressDeadlineSeconds)) &&
+         decide (s'.minReadySeconds = s.minReadySeconds)
        | _ => false)
     | _ => true
   | _, _ => true
@@ -134,22 +164,30 @@ def readyNow (kind : Kind) (wl : Workload) : Bool :=
     (match waitAllUpdatedAndReady wl with
      | .val b => b
      | .panic => false)
-  | .cloneSet => wl.status.ready == wl.status.updatedReady
+  | .cloneSet => decide (wl.status.ready = wl.status.updatedReady)
 
 /-- **C06 / C11** a `Finalize` that reports success has seen every pod updated and ready — on every attempt. -/
 def finalizeDoneMeansReady (kind : Kind) (w : World) (br : BR) (out : CallOut) : Bool :=
-  match w.wl, out.world.wl with
-  | some _, some wl' => if ¬ br.partitioned ∧ out.res = .ok then readyNow kind wl' else true
-  | _, _ => true
+  if finalizeDone w br out then
+    match out.world.wl with
+    | some wl' => readyNow kind wl'
+    | none => false
+  else true
 
-/-- a call that fails (or finds nothing to do) before its first write leaves the world as it was;
-    the number of writes it reports is the number of changes -/
+/-- **C06** a call that reports no successful write left the world as it was -/
 def noWriteNoChange (w : World) (out : CallOut) : Bool :=
-  if out.writes = 0 then out.world == w else true
+  if out.writes = 0 then decide (out.world = w) else true
 
 /-- **C06** convergence: repeating a call after a faulty attempt ends where an undisturbed call ends. -/
 def retryConverges (second direct : CallOut) : Bool :=
-  second.world == direct.world && second.res == direct.res
+  decide (second.world = direct.world) && decide (second.res = direct.res)
+
+/-- **C06** no step is executed twice with additional effect: repeating a call that was not disturbed changes
+    nothing and reports the same; after a success it writes nothing (except that `UpgradeBatch` re-issues its
+    patch for a batch of exactly `1`, which the code reads back as "initial value") -/
+def idempotent (op : Op) (br : BR) (direct again : CallOut) : Bool :=
+  decide (again.world = direct.world) && decide (again.res = direct.res) &&
+  (decide (direct.res ≠ .ok) || decide (again.writes = 0) || (op = .upgrade && entryOf br = some (int 1)))
 
 /-! ### C01: exposure of the new revision -/
 
@@ -158,7 +196,11 @@ def clampSurge (s : IntOrPct) (R : Int) : Int := max 0 (min R (scaledV s R true)
 /-- the blue-green hold: new pods never become available (`minReadySeconds = MaxReadySeconds`) and no old pod may be
     taken down (`maxUnavailable = 0`), so only the surge lets pods of the new revision exist -/
 def held (wl : Workload) : Bool :=
-  decide (wl.minReadySeconds = maxReady) && ruUnavailable wl.ru == some (int 0) && wl.stype != .other
+  decide (wl.minReadySeconds = maxReady) && decide (ruUnavailable wl.ru = some (int 0)) && decide (wl.stype ≠ .other)
+
+def defaultSurge : Kind → IntOrPct
+  | .deployment => pct 25
+  | .cloneSet => int 0
 
 /-- pods of the new revision the workload's own controller may run in this state (environment model):
     none while paused; while held at most `min(R, ⌈maxSurge⌉)` (CloneSet: and at most what the partition leaves);
@@ -168,9 +210,7 @@ def exposureBG (kind : Kind) (wl : Workload) : Int :=
   | none => 0
   | some R =>
     if wl.paused then 0 else
-    let cap := if held wl then
-        clampSurge ((ruSurge wl.ru).getD (match kind with | .deployment => pct 25 | .cloneSet => int 0)) R
-      else max 0 R
+    let cap := if held wl then clampSurge ((ruSurge wl.ru).getD (defaultSurge kind)) R else max 0 R
     match kind with
     | .deployment => cap
     | .cloneSet => min (max 0 (exposure (wl.partition.getD (int 0)) R)) cap
@@ -179,7 +219,7 @@ def exposureBG (kind : Kind) (wl : Workload) : Int :=
 def prepared (kind : Kind) (wl : Workload) : Bool :=
   match kind with
   | .deployment => wl.paused
-  | .cloneSet => wl.partition == some (pct 100)
+  | .cloneSet => decide (wl.partition = some (pct 100))
 
 /-- replicas the current batch plans (`0` when there is no such batch) -/
 def plannedOfBR (br : BR) (R : Int) : Int :=
@@ -193,12 +233,15 @@ def exposureW (kind : Kind) (w : World) : Int :=
   | none => 0
 
 /-- **C01** `upgrade_within_step`: after `UpgradeBatch` the new revision is exposed at most as far as before or as
-    far as the current batch plans. -/
+    far as the current batch plans (for a CloneSet: provided the hold `Initialize` installed is still in place —
+    `UpgradeBatch` does not re-assert `maxUnavailable = 0` there). -/
 def upgradeWithinStep (kind : Kind) (w : World) (br : BR) (out : CallOut) : Bool :=
   match w.wl with
   | some wl =>
     match wl.replicas with
-    | some R => decide (exposureW kind out.world ≤ max (exposureBG kind wl) (plannedOfBR br R))
+    | some R =>
+      if kind = .cloneSet ∧ ¬ held wl then true
+      else decide (exposureW kind out.world ≤ max (exposureBG kind wl) (plannedOfBR br R))
     | none => true
   | none => true
 
@@ -209,11 +252,13 @@ def upgradeMonotone (kind : Kind) (w : World) (out : CallOut) : Bool :=
     if held wl ∧ (ruSurge wl.ru).isSome then decide (exposureBG kind wl ≤ exposureW kind out.world) else true
   | none => true
 
-/-- **C01** `Initialize` exposes nothing of the new revision on a prepared workload, and at most one pod otherwise. -/
+/-- **C01** `Initialize` exposes nothing of the new revision on a prepared workload, and never more than one pod
+    beyond what was exposed (a paused CloneSet of a foreign update type is outside: `Initialize` un-pauses it). -/
 def initExposure (kind : Kind) (w : World) (out : CallOut) : Bool :=
   match w.wl with
   | some wl =>
-    decide (exposureW kind out.world ≤ max (exposureBG kind wl) 1) &&
+    (if kind = .cloneSet ∧ wl.paused ∧ wl.stype = .other then true
+     else decide (exposureW kind out.world ≤ max (exposureBG kind wl) 1)) &&
     (if prepared kind wl then decide (exposureW kind out.world = 0) else true)
   | none => true
 
@@ -221,7 +266,7 @@ def initExposure (kind : Kind) (w : World) (out : CallOut) : Bool :=
 
 /-- inputs on which a call may panic without being a finding: a workload without `spec.replicas` (the API
     servers default the field) and a current batch outside the plan (the executor checks it before) -/
-def panicAllowed (_kind : Kind) (op : Op) (w : World) (br : BR) (_f : Fault) : Bool :=
+def panicAllowed (op : Op) (w : World) (br : BR) : Bool :=
   (match w.wl with
    | some wl => wl.replicas.isNone
    | none => false) ||
@@ -230,21 +275,29 @@ def panicAllowed (_kind : Kind) (op : Op) (w : World) (br : BR) (_f : Fault) : B
 /-! ### what the driver evaluates -/
 
 def guardTags (kind : Kind) (op : Op) (w : World) (br : BR) (f : Fault) (o : Option Orig) : List String :=
-  (if gFinalizeRetry kind op w br then ["guard:deployFinalizeRetry"] else []) ++
-  (if op = .init && (match w.wl with | some wl => gSavedZero br wl | none => false) then ["guard:savedMinReadyZero"] else []) ++
-  (if op ≠ .upgrade ∧ gNoApiVersion w then ["guard:hpaNoApiVersion"] else []) ++
-  (if op ≠ .upgrade ∧ gListFault f then ["guard:hpaListFault"] else []) ++
+  (match w.wl with
+   | some wl =>
+     (if op = .fin && !br.partitioned && (gRestoredDeploy kind wl || (kind = .deployment && waitFailsAfterPatch wl))
+        then ["guard:deployFinalizeRetry"] else []) ++
+     (if op = .fin && !br.partitioned && gCsPartition kind wl then ["guard:csPartitionKept"] else []) ++
+     (if op = .init && gSavedZero br wl then ["guard:savedMinReadyZero"] else [])
+   | none => []) ++
+  (if op ≠ .upgrade && gNoApiVersion w then ["guard:hpaNoApiVersion"] else []) ++
+  (if op ≠ .upgrade && gListFault f then ["guard:hpaListFault"] else []) ++
   (match o with
    | some o => if gOrigType kind o then ["guard:origRecreate"] else []
    | none => [])
 
-def stepOracles (kind : Kind) (op : Op) (w : World) (br : BR) (_f : Fault) (o : Option Orig) (out : CallOut) :
+def stepOracles (kind : Kind) (op : Op) (w : World) (br : BR) (o : Option Orig) (out : CallOut) :
     List (String × Bool) :=
   [("C06.bg_no_write_no_change", noWriteNoChange w out)] ++
   (match o with
    | some o =>
      [("C05.bg_inv_preserved", invPreserved kind o w out)] ++
-     (if op = .fin then [("C05.bg_finalize_restores_original", finalizeRestores kind o w br out)] else [])
+     (if op = .fin then
+        [("C05.bg_finalize_restores_original", finalizeRestores kind o w br out),
+         ("C05.bg_finalize_restores_type", finalizeRestoresType kind o w br out)]
+      else [])
    | none => []) ++
   (match op with
    | .init =>
@@ -255,11 +308,13 @@ def stepOracles (kind : Kind) (op : Op) (w : World) (br : BR) (_f : Fault) (o : 
      [("C01.bg_upgrade_within_step", upgradeWithinStep kind w br out),
       ("C01.bg_upgrade_monotone", upgradeMonotone kind w out)]
    | .fin =>
-     [("C06.bg_finalize_done_means_ready", finalizeDoneMeansReady kind w br out),
+     [("C05.bg_finalize_restores_hpa", finalizeRestoresHPA w br out),
+      ("C05.bg_finalize_releases_workload", finalizeReleases kind w br out),
+      ("C06.bg_finalize_done_means_ready", finalizeDoneMeansReady kind w br out),
       ("C11.bg_finalize_done_means_ready", finalizeDoneMeansReady kind w br out)])
 
-def retryOracles (_kind : Kind) (_op : Op) (_w : World) (_br : BR) (_f : Fault) (_first second direct : CallOut) :
-    List (String × Bool) :=
-  [("C06.bg_retry_converges", retryConverges second direct)]
+def retryOracles (op : Op) (br : BR) (second direct again : CallOut) : List (String × Bool) :=
+  [("C06.bg_retry_converges", retryConverges second direct),
+   ("C06.bg_idempotent", idempotent op br direct again)]
 
 end RV.Oracle.CtlBlueGreen
